@@ -500,7 +500,11 @@ static double parse_double_from_buffer(const char* start, const char* end) {
             continue;
         }
 #endif
-        mantissa = mantissa * 10 + (*ptr - '0');
+        /* More than 18 digits never take the fast path; stop accumulating so
+         * that the signed mantissa cannot overflow. */
+        if (digit_count < 18) {
+            mantissa = mantissa * 10 + (*ptr - '0');
+        }
         digit_count++;
         ptr++;
     }
@@ -521,7 +525,9 @@ static double parse_double_from_buffer(const char* start, const char* end) {
                 continue;
             }
 #endif
-            mantissa = mantissa * 10 + (*ptr - '0');
+            if (digit_count + frac_digits < 18) {
+                mantissa = mantissa * 10 + (*ptr - '0');
+            }
             frac_digits++;
             ptr++;
         }
